@@ -32,7 +32,12 @@ func returnsErr(v *FnView, rs *ast.ReturnStmt) bool {
 		return false
 	}
 	last := rs.Results[len(rs.Results)-1]
-	return !isNilIdent(v.Info, last) && isErrorType(v.Info.TypeOf(last))
+	if isNilIdent(v.Info, last) {
+		return false
+	}
+	t := v.Info.TypeOf(last)
+	// a concrete error value (e.g. a registered *errorsmod.Error) returned where the function declares `error`
+	return isErrorType(t) || (t != nil && types.Implements(t, errorType.Underlying().(*types.Interface)))
 }
 
 func runC13(r *Run) {
